@@ -150,3 +150,31 @@ TEXT["C17"] = dict(
     note="trusted: the translator genrels; the harness's direct matcher/equivalence oracle; gomini's concurrent execution is covered by C06",
     technique="translation of the Go relation DSL to Coq + Coq proof + oracle comparison on the real code",
 )
+
+
+TEXT["C14"] = dict(
+    text="Theorems (Coq kernel, no axioms) over the gocc tables and the grammar re-transcribed from /repo on every run: boolean validators of the "
+         "lexer DFA and of the LR tables hold (vm_compute over the finite tables) and imply, for EVERY byte string and every behaviour of the "
+         "strconv oracles: each Scan consumes at least one byte and returns a real token, the literals partition the input, Parse never panics "
+         "(no index out of range, gotoTab -1, short stack, wrong attribute type, empty literal), terminates within linear fuel, and accepts only "
+         "token lists that sexpr.bnf's productions generate, with exactly the tree of the semantic actions (C14_safe_sound). The other direction "
+         "(every sentence is accepted; the DFA equals the token regular expressions) is proved for the parser where C14_complete is present, and "
+         "otherwise decided by the correspondence: sexpr.Parse / lexer.Scan against the table drivers AND against an independent "
+         "regular-expression lexer + recursive descent derived from sexpr.bnf, on grammar sentences, single edits, random bytes with invalid "
+         "UTF-8 and all short strings over the token alphabet. The generator-conformance clause is decided by rebuilding gocc offline, "
+         "regenerating from sexpr.bnf and diffing.",
+    note="trusted: Coq kernel + vm_compute; the translator lib/gen_tables.py; strconv.Unquote/ParseFloat as recorded oracles; utf8.DecodeRune "
+         "modelled; gocc itself (used only for the regeneration diff); the hand-written drivers LexDriver/LRDriver are tied to lexer.go/parser.go by sampling",
+    technique="Coq proof (validator + invariant over all reachable parser configurations, Jourdan-Pottier-Leroy style) over regenerated tables + differential correspondence + gocc regeneration diff",
+)
+TEXT["C15"] = dict(
+    text="Theorem C15_print_is_sentence (Coq kernel, no axioms): for EVERY S-expression over printable atoms - proper lists, dotted pairs, improper "
+         "lists of any length, nested empty lists - the token list that the model of String() prints is a sentence of the grammar re-transcribed "
+         "from sexpr.bnf, and the tree the semantic actions build for it is the printed expression itself (same pair structure, same atoms at the "
+         "same positions); with C14's parser theorems this gives the round trip. Per-atom facts (strconv.Quote/Unquote, FormatInt/ParseInt, the "
+         "text lexes as one token of its class) are hypotheses validated on every generated atom. Tie: e.String() -> sexpr.Parse -> String() on "
+         "generated expressions against the printer model, the table drivers and the grammar; stability print(parse(s)) on accepted inputs.",
+    note="trusted: as C14; atom texts are oracle inputs (strconv); floats are outside the round-trip clause (a positive float prints as text that "
+         "lexes as a symbol) and are covered by the text-stability oracle only",
+    technique="Coq proof (structural induction on the expression, one lemma per production) over the regenerated grammar + differential correspondence",
+)
